@@ -41,8 +41,13 @@ RULES = {
     "the budget, a *_SIZE constant) meets an element count (`.size`, math.prod of a shape) as operands of min / max / + / - / a comparison "
     "without a product with the item size on the way - `min(tensor_length, tensor.size)` reserves a quarter of a float32 tensor's bytes, "
     "so the writers hold several times the configured budget in materialised tensors",
+    "R12": "a reservation is given back as what it was: acquire() hands out one special token for the single oversized reservation and the "
+    "reserved amount (which can be 0, for an empty tensor) otherwise; the tests that govern, in release(), the statement that frees the "
+    "oversized slot hold for that token and for no amount >= 0 (decided by evaluating the comparisons for the token and for 0, 1 and a "
+    "large amount) - `if reservation > 0: … else: <free the slot>` frees it when an empty tensor finishes while an oversized one is "
+    "still being written, and a second oversized tensor is admitted",
 }
-FLOORS = {"R1": 6, "R2": 3, "R3": 1, "R4": 2, "R5": 3, "R6": 1, "R7": 2, "R8": 4, "R9": 2, "R10": 6, "R11": 10}
+FLOORS = {"R1": 6, "R2": 3, "R3": 1, "R4": 2, "R5": 3, "R6": 1, "R7": 2, "R8": 4, "R9": 2, "R10": 6, "R11": 10, "R12": 1}
 EXPLANATION = (
     "Lock-set analysis over the external-data writer: which fields are touched under which `with`, pairing of "
     "acquire/release through try/finally, lock context of every call path from submitted functions to tensor "
@@ -736,6 +741,96 @@ def rule_r10(ctx):
     ctx.require(n >= 6, f"only {n} forwarded options at sibling call sites found in the external-data writer")
 
 
+def _cmp_eval(t, env):
+    """Value of a test built from comparisons of names in env with constants (None when something else occurs)."""
+    import operator as _op
+
+    def val(e):
+        if isinstance(e, ast.Constant) and isinstance(e.value, (int, float)):
+            return e.value
+        if isinstance(e, ast.UnaryOp) and isinstance(e.op, ast.USub):
+            v = val(e.operand)
+            return None if v is None else -v
+        if isinstance(e, ast.Name) and e.id in env:
+            return env[e.id]
+        return None
+
+    if isinstance(t, ast.UnaryOp) and isinstance(t.op, ast.Not):
+        v = _cmp_eval(t.operand, env)
+        return None if v is None else not v
+    if isinstance(t, ast.BoolOp):
+        vs = [_cmp_eval(v, env) for v in t.values]
+        if any(v is None for v in vs):
+            return None
+        return all(vs) if isinstance(t.op, ast.And) else any(vs)
+    if isinstance(t, ast.Compare) and len(t.ops) == 1:
+        a, b = val(t.left), val(t.comparators[0])
+        ops = {ast.Eq: _op.eq, ast.NotEq: _op.ne, ast.Lt: _op.lt, ast.LtE: _op.le, ast.Gt: _op.gt, ast.GtE: _op.ge, ast.Is: _op.eq, ast.IsNot: _op.ne}
+        if a is None or b is None or type(t.ops[0]) not in ops:
+            return None
+        return ops[type(t.ops[0])](a, b)
+    return None
+
+
+def rule_r12(ctx):
+    bb = ctx.repo.cls(f"{ED}:_ByteBudget")
+    acq, rel = bb.methods.get("acquire"), bb.methods.get("release")
+    ctx.require(acq is not None and rel is not None and len(rel.params) >= 2, "_ByteBudget.acquire / release not found")
+    # the flag of the oversized slot: the field acquire sets to True
+    flags = [w for w in field_writes(acq) if norm(w.recv) == "self" and isinstance(getattr(w.stmt, "value", None), ast.Constant) and w.stmt.value.value is True]
+    ctx.require(len(flags) == 1, "acquire: the flag of the oversized slot was not found")
+    flag = flags[0].field
+    # the token handed out with it: the constant returned in the block that sets the flag
+    blk = getattr(flags[0].stmt, "_parent", None)
+    tokens = [r.value for r in ast.walk(blk) if isinstance(r, ast.Return) and r.value is not None] if blk is not None else []
+    consts = {}  # module-level integer constants (the token may have a name)
+    for nm, ex in acq.module.assigns.items():
+        v = ex.operand.value * -1 if isinstance(ex, ast.UnaryOp) and isinstance(ex.op, ast.USub) and isinstance(ex.operand, ast.Constant) and isinstance(ex.operand.value, int) \
+            else ex.value if isinstance(ex, ast.Constant) and isinstance(ex.value, int) and not isinstance(ex.value, bool) else None
+        if v is not None:
+            consts[nm] = v
+    tok = None
+    for t in tokens:
+        v = t.operand.value * -1 if isinstance(t, ast.UnaryOp) and isinstance(t.op, ast.USub) and isinstance(t.operand, ast.Constant) else t.value if isinstance(t, ast.Constant) else \
+            consts.get(t.id) if isinstance(t, ast.Name) else None
+        if isinstance(v, int):
+            tok = v
+    if tok is None:
+        ctx.ob("R12", "the token of the oversized reservation is not an integer constant: the rule does not apply to this encoding", True, nontrivial=False)
+        return
+    param = rel.params[1]
+    frees = [w for w in field_writes(rel) if norm(w.recv) == "self" and w.field == flag and isinstance(getattr(w.stmt, "value", None), ast.Constant) and w.stmt.value.value is False]
+    ctx.require(len(frees) >= 1, "release: the statement that frees the oversized slot was not found")
+    for w in frees:
+        gov = []
+        child, par = w.stmt, getattr(w.stmt, "_parent", None)
+        while par is not None and par is not rel.node:
+            if isinstance(par, ast.If):
+                gov.append((par.test, child in par.body))
+            child, par = par, getattr(par, "_parent", None)
+
+        def reached(value):
+            out = True
+            for t, positive in gov:
+                v = _cmp_eval(t, {param: value, **consts})
+                if v is None:
+                    return None
+                out = out and (v if positive else not v)
+            return out
+
+        samples = {tok: True, 0: False, 1: False, 1 << 40: False}
+        res = {k: reached(k) for k in samples}
+        undecided = any(v is None for v in res.values())
+        ok = undecided or all(res[k] == want for k, want in samples.items())
+        wrong = [k for k, want in samples.items() if res[k] is not None and res[k] != want]
+        ctx.check("R12", f"release: the oversized slot is freed for the token {tok} and for no amount", ok, rel, w.stmt,
+                  f"`{norm(w.stmt)}` is reached for reservation = {wrong} (expected: only for {tok}, the token acquire() returns with the oversized slot): an amount of 0 - "
+                  "the reservation of an empty tensor - frees the slot while an oversized tensor is still in flight, so a second oversized tensor starts and the "
+                  "materialised bytes exceed the budget plus the largest tensor",
+                  how="tests governing the freeing statement evaluated for the oversized token and for the amounts 0, 1, 2**40 (comparisons with constants only)",
+                  construct="oversized slot freed for a plain amount")
+
+
 def rule_r11(ctx):
     from ..shared import unit_mismatches
 
@@ -759,6 +854,7 @@ def rule_r11(ctx):
 
 
 def run(ctx):
+    rule_r12(ctx)
     rule_r11(ctx)
     rule_r10(ctx)
     rule_r9(ctx)
